@@ -603,12 +603,13 @@ def _global_rmse(rc: RuleCtx):
     want = ref("Sum((y - y_hat)**2)", {"y": ys, "y_hat": xs * m + b}, length=right + C(1) - left)
     stores = [e for e in out.events if e.kind == "store" and e.target == "cache"]
     good = False
+    degenerate = canon_sign(x0 - xn, OPS["=="])          # a segment whose end points share their x: outside the curve domain (x strictly increasing)
     for e in stores:
         k, v = e.args
         if veq(k, key):
-            for g, x in cases_of(v):
-                if isinstance(x, Rat) and x.equals(want):
-                    good = True
+            # every way the stored value can be computed must be that SSE (not just one branch of it)
+            live = [(g, x) for g, x in cases_of(v) if g_sat(g_and(e.guard, g, g_not(degenerate)))]
+            good = bool(live) and all(isinstance(x, Rat) and x.equals(want) for _g, x in live)
     if good:
         res.ok("U6", f"{fi.qualname}:segments", "cache[(left,right)] == SSE of points[left:right+1] against its endpoint line; consecutive segments")
     else:
